@@ -364,8 +364,9 @@ func (e *Engine) CheckAll() {
 			st := e.g.States[v.n]
 			headSt := e.g.States[h-1]
 			mt := model(n.kind, v.label, v.n)
-			if mt != nil && len(mt) != len(qs) {
-				e.fail(Failure{Sig: "model-dump-shape", What: fmt.Sprintf("driver returned %d tokens, want %d: %.80s", len(mt), len(qs), strings.Join(mt, " "))})
+			if e.drv != nil && len(mt) != len(qs) {
+				// the view exists on the real node: the driver must answer it, token for token
+				e.fatal("driver dump of the %s view of block %d (%s): %d tokens, want %d: %.80s", v.label, v.n, n.kind, len(mt), len(qs), strings.Join(mt, " "))
 				mt = nil
 			}
 			differs := false
@@ -389,32 +390,13 @@ func (e *Engine) CheckAll() {
 					}
 				}
 				if !contains(want, got) {
-					kind := q.Kind
-					suffix := ""
-					if q.Kind != "class" && q.Kind != "casm" && isSystem(q.Addr) {
-						kind = "sys" + kind
-						if e.drained[*q.Addr] {
-							suffix = "-after-drain"
-						}
-					}
-					if q.Kind == "classhash" && e.deployedAndReplaced(st, q.Addr) {
-						suffix = "-deployed-and-replaced-in-one-diff"
-					}
-					if q.Kind == "storage" && v.label == "head" && e.staleLeafShape(q, got) {
-						suffix = "-stale-leaf-after-delete-next-to-sibling"
-					}
-					qj := qjson(q)
-					qj["node"], qj["backend"], qj["view"], qj["n"] = n.name, n.kind, v.label, v.n
-					qj["got"], qj["want"] = got, strings.Join(want, "|")
+					attrib := ""
 					// the cause is the discarded operation only if this very read was made, and was
 					// right, at the check before it (the chain is the same before and after)
 					if isDiscarded(e.lastOp) && e.prevOK[rk] {
-						suffix += "-after-discarded-" + e.lastOp
+						attrib = "-after-discarded-" + e.lastOp
 					}
-					e.fail(Failure{Violation: true, Sig: n.kind + "-" + v.label + "-" + kind + "-" + classify(want, got) + suffix,
-						What: fmt.Sprintf("%s backend, %s view of block %d (head %d): %s %v = %s, the state diffs up to block %d give %s",
-							n.kind, v.label, v.n, h-1, q.Kind, qj, got, v.n, strings.Join(want, "|")),
-						Query: qj})
+					e.reportFreshAttr(n, v.label, v.n, q, got, want, st, mt, qi, attrib)
 				}
 				if mt != nil && mt[qi] != got {
 					qj := qjson(q)
@@ -445,6 +427,7 @@ func (e *Engine) CheckAll() {
 			for i := 0; i < h; i++ {
 				mt := model("abs", "num", i)
 				if len(mt) != len(qs) {
+					e.fatal("driver dump of the abstract state of block %d: %d tokens, want %d", i, len(mt), len(qs))
 					continue
 				}
 				for qi, q := range qs {
@@ -491,6 +474,66 @@ func (e *Engine) deployedAndReplaced(st *lib.AbsState, a *felt.Felt) bool {
 	return both
 }
 
+// reportFresh files a wrong answer of a view under the Sig of its cause.
+func (e *Engine) reportFresh(n *node, label string, num int, q query, got string, want []string, st *lib.AbsState, mt []string, qi int) {
+	e.reportFreshAttr(n, label, num, q, got, want, st, mt, qi, "")
+}
+
+func (e *Engine) reportFreshAttr(n *node, label string, num int, q query, got string, want []string, st *lib.AbsState, mt []string, qi int, attrib string) {
+	h := e.g.Height()
+	kind := q.Kind
+	suffix := ""
+	if q.Kind != "class" && q.Kind != "casm" && isSystem(q.Addr) {
+		kind = "sys" + kind
+		// the drain defect, and only it: the address was drained in this history AND the model
+		// of the code as found gives the same answer for this very read
+		if e.drained[*q.Addr] && e.modelAgrees(n, label, num, q, got, mt, qi) {
+			suffix = "-after-drain"
+		}
+	}
+	if q.Kind == "classhash" && e.deployedAndReplaced(st, q.Addr) {
+		suffix = "-deployed-and-replaced-in-one-diff"
+	}
+	if q.Kind == "storage" && label == "head" && e.staleLeafShape(q, got) {
+		suffix = "-stale-leaf-after-delete-next-to-sibling"
+	}
+	if q.Kind == "casm" && e.foreignMigration(st, q.Addr, got) {
+		suffix = "-migrated-to-a-hash-other-than-junos-own"
+	}
+	qj := qjson(q)
+	qj["node"], qj["backend"], qj["view"], qj["n"] = n.name, n.kind, label, num
+	qj["got"], qj["want"] = got, strings.Join(want, "|")
+	e.fail(Failure{Violation: true, Sig: n.kind + "-" + label + "-" + kind + "-" + classify(want, got) + suffix + attrib,
+		What: fmt.Sprintf("%s backend, %s view of block %d (head %d): %s %v = %s, the state diffs up to block %d give %s",
+			n.kind, label, num, h-1, q.Kind, qj, got, num, strings.Join(want, "|")),
+		Query: qj})
+}
+
+// modelAgrees: does the Lean model of the code as it is give the same answer for this read?
+func (e *Engine) modelAgrees(n *node, label string, num int, q query, got string, mt []string, qi int) bool {
+	if mt != nil && qi >= 0 {
+		return mt[qi] == got
+	}
+	if e.drv == nil {
+		return false
+	}
+	line := "dump " + n.kind + " head"
+	if label != "head" {
+		line = fmt.Sprintf("dump %s num %x", n.kind, num)
+	}
+	ans, ok := e.ask(line)
+	if !ok {
+		return false
+	}
+	t := strings.Fields(ans)
+	for i, x := range e.u.queries() {
+		if x.Kind == q.Kind && x.Addr.Equal(q.Addr) && (x.Slot == nil) == (q.Slot == nil) && (x.Slot == nil || x.Slot.Equal(q.Slot)) {
+			return i < len(t) && t[i] == got
+		}
+	}
+	return false
+}
+
 func readKey(node int, label string, n, q int) uint64 {
 	l := uint64(0)
 	switch label {
@@ -512,4 +555,15 @@ func tokClass(t string) string {
 		return "error"
 	}
 	return "value"
+}
+
+// foreignMigration recognises one known divergence: a CASM migration whose hash in the diff is not
+// the blake2s hash juno computed itself at declaration; juno's reads answer its own hash.
+func (e *Engine) foreignMigration(st *lib.AbsState, class *felt.Felt, got string) bool {
+	fx := sierraByHash(class)
+	if fx == nil {
+		return false
+	}
+	want, ok := st.Casm[*class]
+	return ok && !want.Equal(&fx.casm2) && !want.Equal(&fx.casm1) && got == hx(&fx.casm2)
 }
